@@ -44,6 +44,16 @@ func c07Exec(in []string) []string {
 			q = strings.Join(qs, ",")
 		}
 		return []string{proto.L(vals), q}
+	case "T":
+		// totality of the other exported parsers of header.go on the same header lines ("no header value makes
+		// parsing panic"): a panic is reported by the harness frame as PANIC
+		h := http.Header{"Accept": proto.UnL(in[1]), "Date": proto.UnL(in[1])}
+		_ = header.ParseAccept2(h, "Accept")
+		_ = header.ParseList(h, "Accept")
+		_, _ = header.ParseValueAndParams(h, "Accept")
+		_ = header.ParseTime(h, "Date")
+		_ = header.Copy(h)
+		return []string{"ok"}
 	case "N":
 		r := &http.Request{Header: http.Header{}}
 		if ls := proto.UnL(in[1]); ls != nil {
@@ -168,6 +178,8 @@ func c07Offers(r *proto.Rng, enc bool) []string {
 func c07Gen(r *proto.Rng, n int, tier string, emit func(in ...string)) {
 	for i := 0; i < n; i++ {
 		switch {
+		case i%40 == 39:
+			emit("T", proto.L(c07Header(r, i%80 == 79)))
 		case i%10 < 2:
 			emit("P", proto.L(c07Header(r, false)))
 		case i%10 < 8:
